@@ -23,7 +23,7 @@ func init() {
 		Prop:   "C05",
 		Run:    run,
 		Replay: replay,
-		Rule: "Part A/B (E1): every byte string up to the length bound over a 25-symbol alphabet, and every proper prefix and single-byte substitution of a corpus of expressions, is given to the three machine constructors (expr, path_eval, leafref) under a step horizon; every machine obtained is run on three contexts (virtual identity tree, typed tree, nil-free empty tree). " +
+		Rule: "Part A/B (E1): every byte string up to the length bound over a 28-symbol alphabet (incl. '%' and '%s': error texts are built with format strings), and every proper prefix and single-byte substitution of a corpus of expressions, is given to the three machine constructors (expr, path_eval, leafref) under a step horizon; every machine obtained is run on three contexts (virtual identity tree, typed tree, nil-free empty tree). " +
 			"Part C (E2, fault enumeration): for every corpus expression with data-tree access, run fault-free, count the N callbacks, then for every k<=N (and every pair k<j in the thorough tier) make those callbacks fail with unique errors. " +
 			"Non-trivial = the input got past the first token (constructor) or the run touched the data tree / the stack (runs).",
 		Bound: map[string]string{
@@ -38,7 +38,7 @@ func init() {
 	})
 }
 
-var alphabet = []string{"a", "1", " ", "/", "(", ")", "[", "]", "'", "\"", ".", "=", "-", "*", ":", ",", "<", "!", "d", "i", "v", "e", "\x00", "\xff", "é"}
+var alphabet = []string{"a", "1", " ", "/", "(", ")", "[", "]", "'", "\"", ".", "=", "-", "*", ":", ",", "<", "!", "d", "i", "v", "e", "\x00", "\xff", "é", "%", "%s", "\n"}
 var subAlphabet = []string{"a", "1", "/", "(", ")", "[", "]", "'", ".", "=", ":", "\xff"}
 
 var corpus = []string{
